@@ -110,8 +110,12 @@ class Judge(object):
             g = (got[1], 0.0)
             skip_im_sign = False
         elif got[0] == "f":
-            # a Python float where Python gives a complex
-            self.rep.disagree(desc, "float-result", detail)
+            # a Python float where Python gives a complex.  The unchanged tree does that for `**` under cpow=False
+            # exactly when the imaginary part of its result is zero ("soft complex"); anything else is a wrong type.
+            soft = op == "pow" and not isinstance(pred, str) and pred[1] == 0 and lc.same(pred[0], got[1])
+            self.rep.disagree(desc, "float-result" if soft else "wrong-type", detail)
+            if not soft:
+                return False
             ok = False
             g = (got[1], 0.0)
             skip_im_sign = True
@@ -156,13 +160,22 @@ def run(tier, seed):
     core.subdir("build")
 
     # ---- model checking, builds and the C99 oracle in parallel
-    with concurrent.futures.ThreadPoolExecutor(max_workers=3) as ex:
+    strict = {"Complex_strict_abs": "StructAgreesEverywhere", "Complex_strict_div": "StructAgreesEverywhere",
+              "Complex_strict_conv": "ConvAgreesEverywhere"}
+    with concurrent.futures.ThreadPoolExecutor(max_workers=6) as ex:
         f_tlc = ex.submit(core.tlc, "Complex", cfg="Complex_q" if quick else "Complex_t", timeout=900 if quick else 2400)
         f_bld = ex.submit(build_modules, 2)
         f_orc = ex.submit(lc.C99Oracle, work)
+        f_strict = {cfg: ex.submit(core.tlc, "Complex", cfg=cfg, workers=2, timeout=600) for cfg in strict}
         tl = f_tlc.result()
         builds = f_bld.result()
         oracle = f_orc.result()
+        # the deviations of the implementation-shaped model are found by TLC itself: the strict configurations must fail
+        for cfg, inv in strict.items():
+            r = f_strict[cfg].result()
+            if r.violation != inv:
+                core.die("strict configuration %s did not fail on %s (got %r)" % (cfg, inv, r.violation))
+            cov["tlc"].append(dict(r.summary(), config=cfg, expected_violation=inv))
     if not tl.ok:
         import sys
         sys.stderr.write(tl.out[-5000:])
